@@ -180,7 +180,17 @@ let () =
           try
             match f.(0) with
             | "rp" -> rp_case f
-            | "cv" | "pl" -> cv_case f
+            | "cv" -> cv_case f
+            | "pl" ->
+                let base = cv_case f in
+                if Array.exists (fun x -> x = "noearly=1") f then begin
+                  let ord = ref [] in
+                  Array.iter (fun x -> if String.length x > 6 && String.sub x 0 6 = "order=" then
+                                 ord := List.map int_of_string (String.split_on_char ',' (String.sub x 6 (String.length x - 6)))) f;
+                  let n = List.length (String.split_on_char ';' f.(5)) in
+                  let (early, closed) = Explore.close_run n !ord in
+                  Printf.sprintf "%s early_eof=%d closed_at_end=%d" base (if early then 1 else 0) (if closed then 1 else 0)
+                end else base
             | "ra" -> ra_case f
             | "mqx" -> Explore.mqx_case f
             | "tpx" -> Explore.tpx_case f
